@@ -14,6 +14,8 @@ import (
 	"path/filepath"
 	"sort"
 	"strings"
+	"time"
+	"verifh/shim/vtime"
 
 	"github.com/glowlabs-org/gca-backend/client"
 	"github.com/glowlabs-org/gca-backend/glow"
@@ -326,6 +328,9 @@ func c11Round(j c11Job) *jobReport {
 	if !checkAfter("start") {
 		return rep
 	}
+	sb, _ := os.ReadFile(filepath.Join(w.Dir, client.LastSyncFile))
+	syncStamp := string(sb)
+	vtime.Advance(3 * time.Second) // a successful round would write a different stamp
 	ok, p, hung := w.syncRound(5)
 	rep.Evals++
 	if p != "" {
@@ -339,6 +344,23 @@ func c11Round(j c11Job) *jobReport {
 		return rep
 	}
 	rep.Reasons[fmt.Sprintf("round ok=%v attempts=%d", ok, attempt)]++
+	succeeded := false
+	for k := 0; k < attempt && k < len(j.Outcomes); k++ {
+		if j.Outcomes[k] == "success" {
+			succeeded = true
+		}
+	}
+	if ok != succeeded {
+		rep.fail(fmt.Sprintf("round-result-misleading/reported=%v", ok), map[string]interface{}{"config": cfgDesc, "attempts_made": attempt, "an_attempt_succeeded": succeeded})
+	}
+	if !succeeded {
+		if b, err := os.ReadFile(filepath.Join(w.Dir, client.LastSyncFile)); err == nil && string(b) != syncStamp {
+			rep.fail("failed-round-recorded-as-successful-sync", map[string]interface{}{"config": cfgDesc, "last_sync_file": string(b)})
+		}
+		if len(hub.Log) > 0 {
+			rep.fail("failed-round-emits-datagrams", map[string]interface{}{"config": cfgDesc, "datagrams": len(hub.Log)})
+		}
+	}
 	if ok {
 		rep.Accepted++
 	}
@@ -500,6 +522,16 @@ func init() {
 			}
 		}
 		lockPaths(run, "client", "glow")
+		// five and six configured servers: every way for all five attempts to fail with one kind of failure,
+		// mixed failures, and success on exactly the fifth attempt
+		for _, servers := range []int{5, 6} {
+			for _, o := range outs[:5] {
+				jobs = append(jobs, c11Job{Part: "rounds", Servers: servers, Outcomes: []string{o, o, o, o, o}})
+			}
+			jobs = append(jobs, c11Job{Part: "rounds", Servers: servers, Outcomes: []string{"refused", "reset", "short", "badsig", "tiny"}})
+			jobs = append(jobs, c11Job{Part: "rounds", Servers: servers, Outcomes: []string{"refused", "reset", "short", "badsig", "success"}})
+			jobs = append(jobs, c11Job{Part: "rounds", Servers: servers, Outcomes: []string{"tiny", "tiny", "tiny", "success"}})
+		}
 		run.Assumption("delays are not modelled (virtual time); a hung dial is represented by refusal/reset; the Go map iteration order inside the client is not controlled, the harness observes which server was contacted")
 		return runJobCheck(run, "c11", jobs, "(a) reply shapes: every length 0..800, 1000, 4096, 65535 as zeros, as the genuine reply cut with rewritten prefix, as a short read, and as bodies of 0x00/0xFF/own-key bytes correctly timestamped and signed with the contacted server's real key, plus every server-list region length 0..150 signed by the real key, all against the real parser; (b) every sequence of per-attempt outcomes {refused, reset, short read, bad signature, tiny reply, success} for 1..3 configured servers with none/one/all banned and several shuffle answers, through the real sync round, followed by a send-loop tick, a second round and a client restart; distinct = (shape class, verdict) and (round result, attempts) classes")
 	}
